@@ -73,6 +73,11 @@ CLAIMED["C16"] = dict(
     text="Enumerated workload with a runtime oracle: all subsets of a 7-clock universe (x all subsets for binary operations), all 3-step construction sequences, all 1024 attributed maps over a 5-clock universe with attribute sets over {a,b}; every result is compared point by point with the model and checked for canonical form, and equal sets must compare, hash and encode equal. Sampled: random instances over 3 clients x 200 clocks, and the delete sets of simulated documents (equal to the deleted blocks of the store, disjoint from visible elements, containing every received deletion of an integrated unit). The enumeration is complete for the stated universe only.",
     design="DESIGN.md section 3 C16")
 
+CLAIMED["C18"] = dict(
+    technique="runtime monitoring: scheduler-driven executions of DefaultProtocol peers over byte channels; awareness checked against a per-client (clock, null-beats-value) register model with passive observers",
+    text="Exploration: handshakes between two peers with arbitrary prior divergence under all interleavings a seeded scheduler produces (both directions, concurrent local edits forwarded as Update messages) must end with equal documents and nothing pending; every protocol message is re-encoded and must decode to itself. Awareness: instances with injected clocks perform set / re-set / disconnect / timeout removal; every delivery is checked for clock monotonicity, protection of the own live state and idempotence; passive observers fed the same multiset of payloads in different orders (with duplicates) must agree with each other and with the register model.",
+    design="DESIGN.md section 3 C18")
+
 NOT_YET = {}
 
 
